@@ -400,9 +400,9 @@ func (n *Node) Status() (*NodeStatus, error) {
 }
 
 // Dump fetches the logical dump of the workload table.
-func (n *Node) Dump() (*Dump, error) {
+func (n *Node) Dump(hllKeys ...string) (*Dump, error) {
 	c := &http.Client{Timeout: 60 * time.Second}
-	resp, err := c.Get(n.harnessURL("/dump"))
+	resp, err := c.Get(n.harnessURL("/dump?hll=" + strings.Join(hllKeys, ",")))
 	if err != nil {
 		return nil, err
 	}
